@@ -116,7 +116,7 @@ pub struct ChunkWorld {
 /// appendix A.3 #5-#11 and two r = 1 constructions): (key, message). Sampling
 /// random bytes meets such accumulator values with probability ~2^-38 per
 /// block, so the schedules are also run over this small corpus.
-fn special_operands(n: u8) -> Option<([u8; 32], Vec<u8>)> {
+pub fn special_operands(n: u8) -> Option<([u8; 32], Vec<u8>)> {
     let mut key = [0u8; 32];
     let ff = [0xffu8; 16];
     let blk = |first: u8, rest: u8| -> Vec<u8> {
